@@ -28,6 +28,7 @@ pub struct C14;
 type Fq = ark::Fq;
 
 thread_local! {
+    static FORGED: RefCell<Vec<(usize, String, crate::forge::Verdict)>> = RefCell::new(Vec::new());
     static BIT_FAULTS: RefCell<Vec<(usize, bool, Option<String>, Option<String>)>> = RefCell::new(Vec::new());
 }
 
@@ -155,9 +156,23 @@ pub enum CoordKind {
     Scaled(PtSrc, Num),
 }
 
+/// parameters of the witness-forging fault family (see `crate::forge`)
+#[derive(Clone, Copy, Debug, Serialize, Deserialize, PartialEq, Eq)]
+pub struct Forge {
+    pub seed: u64,
+    /// number of (witness, value) targets per synthesis; all of them when the system is smaller
+    pub max: u32,
+}
+
 #[derive(Clone, Debug, Serialize, Deserialize)]
 pub enum Case {
-    Hint { prog: Vec<GOp>, substs: Vec<Subst> },
+    Hint {
+        prog: Vec<GOp>,
+        substs: Vec<Subst>,
+        /// witness forging on top of the honest run and of the first few substituted runs
+        #[serde(default)]
+        forge: Option<Forge>,
+    },
     Coords { kind: CoordKind, via_affine: bool, substs: Vec<Subst> },
     /// one of the seven pinned circuits with a false statement
     PinnedFalse { circuit: u8, a: Recipe, b: Recipe, x: Num, scalar: Num, wrong: Recipe, substs: Vec<Subst> },
@@ -356,13 +371,44 @@ fn bool_outputs_wrong(m: &Machine) -> Option<String> {
     None
 }
 
-fn hint_case(prog: &[GOp], substs: &[Subst], ctx: &mut Ctx) -> Result<(), Failure> {
+/// the forging round of one finished synthesis: outcomes are (witness column, new value, verdict)
+fn forge_round(m: &Machine, fg: Forge, base_sat: bool) -> Vec<(usize, String, crate::forge::Verdict)> {
+    use crate::forge::{judge, targets, Sys, Verdict};
+    let mut out = Vec::new();
+    // reading a lazily held element forces its decoding: that must not meet the substituted hints
+    uninstall();
+    let mat = match m.materialize() {
+        Some(mat) => mat,
+        None => return out,
+    };
+    let sys = match Sys::extract(&m.cs) {
+        Some(s) => s,
+        None => return out,
+    };
+    if sys.first_unsatisfied(&sys.z).is_none() != base_sat {
+        if std::env::var("VERIF_DEBUG_FORGE").is_ok() {
+            eprintln!("FORGE-MISMATCH base_sat={base_sat} mine={:?} ncons={} expect_unsat={:?} cs_says={:?}", sys.first_unsatisfied(&sys.z), sys.a.len(), m.expect_unsat, m.cs.which_is_unsatisfied());
+        }
+        out.push((0, "-".into(), Verdict::Wrong("EVALUATOR-MISMATCH".into())));
+        return out;
+    }
+    for (col, v) in targets(&sys, &mat, fg.seed, fg.max as usize) {
+        let verdict = match sys.forge(col, v) {
+            None => Verdict::Rejected,
+            Some(z) => judge(&sys, &mat, &z, m.expect_unsat.as_deref()),
+        };
+        out.push((col, hex::encode(v.to_bytes()), verdict));
+    }
+    out
+}
+
+fn hint_case(prog: &[GOp], substs: &[Subst], forge: Option<Forge>, ctx: &mut Ctx) -> Result<(), Failure> {
     let gadgets: Vec<String> = prog.iter().filter(|o| !matches!(o, GOp::AllocElem { .. } | GOp::AllocFq { .. })).map(|o| o.name()).collect();
     let what = format!("program[{}]", gadgets.join(","));
     let what_short = gadgets.last().cloned().unwrap_or_else(|| prog.last().map(|o| o.name()).unwrap_or_default());
     let mut all = vec![Subst::honest()];
     all.extend(substs.iter().cloned());
-    for s in &all {
+    for (s_idx, s) in all.iter().enumerate() {
         let log = install(s);
         let r = catch_unwind(AssertUnwindSafe(|| -> Result<(bool, Option<String>), Failure> {
             let mut m = Machine::new(Run::Adversarial, false);
@@ -390,11 +436,35 @@ fn hint_case(prog: &[GOp], substs: &[Subst], ctx: &mut Ctx) -> Result<(), Failur
                     BIT_FAULTS.with(|b| b.borrow_mut().push((at, sat_alt, m.expect_unsat.clone(), wrong_alt)));
                 }
             }
+            // witness forging (last: it adds the materialising constraints to the system)
+            if let Some(fg) = forge {
+                if s_idx < 7 && !m.has_lazy {
+                    let outcomes = forge_round(&m, fg, sat);
+                    FORGED.with(|f| f.borrow_mut().extend(outcomes));
+                }
+            }
             Ok((sat, wrong))
         }));
         uninstall();
         let log = log.borrow().clone();
         let bit_faults: Vec<(usize, bool, Option<String>, Option<String>)> = BIT_FAULTS.with(|b| std::mem::take(&mut *b.borrow_mut()));
+        let forged: Vec<(usize, String, crate::forge::Verdict)> = FORGED.with(|f| std::mem::take(&mut *f.borrow_mut()));
+        let den0_site = log.iter().any(|l| l.den_is_zero);
+        for (col, val, verdict) in forged {
+            use crate::forge::Verdict;
+            ctx.sub_eval();
+            match verdict {
+                Verdict::Rejected => ctx.class("forged-witness|rejected"),
+                Verdict::SatisfiedHarmless => ctx.class("forged-witness|satisfied,observables-unchanged(free internal witness)"),
+                Verdict::SatisfiedInputChanged => ctx.class("forged-witness|satisfied,free-input-changed(other statement)"),
+                Verdict::Wrong(why) if why == "EVALUATOR-MISMATCH" => ctx.class("forged-witness|EVALUATOR-MISMATCH(harness)"),
+                Verdict::Wrong(_) if den0_site => ctx.class("forged-witness|wrong-at-den=0-site(known finding class, excluded)"),
+                Verdict::Wrong(why) => ctx.report(
+                    format!("C14|{what_short}|forged-witness-accepted"),
+                    format!("{what} with hint substitution {}: setting witness column {col} to {val} and re-deriving the later witnesses satisfies the system with unchanged inputs although {why}", s.name()),
+                )?,
+            }
+        }
         for (at, sat_alt, rejected, wrong_alt) in bit_faults {
             ctx.sub_eval();
             ctx.class(&format!("bit-decomposition-fault|{}", if sat_alt { "sat" } else { "unsat" }));
@@ -704,7 +774,8 @@ impl Property for C14 {
     fn strategy(&self, _tier: Tier) -> BoxedStrategy<Case> {
         let substs = || proptest::collection::vec(subst(), 1..=5);
         prop_oneof![
-            8 => (hint_program(), substs()).prop_map(|(prog, substs)| Case::Hint { prog, substs }),
+            6 => (hint_program(), substs()).prop_map(|(prog, substs)| Case::Hint { prog, substs, forge: None }),
+            3 => (hint_program(), substs(), any::<u64>()).prop_map(|(prog, substs, seed)| Case::Hint { prog, substs, forge: Some(Forge { seed, max: 24 }) }),
             4 => (coord_kind(), any::<bool>(), proptest::collection::vec(subst(), 0..=2)).prop_map(|(kind, via_affine, substs)| Case::Coords { kind, via_affine, substs }),
             1 => (0u8..7, recipe::recipe_small(), recipe::recipe_small(), gen::fq_special(), gen::limb_vec(4usize), recipe::recipe_small(), substs())
                 .prop_map(|(circuit, a, b, x, l, wrong, substs)| Case::PinnedFalse { circuit, a, b, x, scalar: Num(crate::api::int_of_limbs(&l)), wrong, substs }),
@@ -712,7 +783,7 @@ impl Property for C14 {
         ]
         .boxed()
     }
-    fn edges(&self, _tier: Tier) -> Vec<Case> {
+    fn edges(&self, tier: Tier) -> Vec<Case> {
         use Recipe::*;
         let g = || Box::new(Generator);
         let w = |v: N| GOp::AllocFq { dst: 0, val: Num(v), mode: Mode::Witness };
@@ -749,8 +820,22 @@ impl Property for C14 {
         let mut v = Vec::new();
         for prog in &instances {
             for site in [None, Some(0u8), Some(1u8)] {
-                v.push(Case::Hint { prog: prog.clone(), substs: enumerated_substs(site) });
+                v.push(Case::Hint { prog: prog.clone(), substs: enumerated_substs(site), forge: None });
             }
+        }
+        // witness forging: every witness of the small gadget instances, on the honest hints and on the
+        // substitutions that make the honest equations fail (a forged helper may repair them)
+        let forge_substs = vec![
+            Subst { flag: FlagSel::False, y: YSel::Zero, site: None },
+            Subst { flag: FlagSel::True, y: YSel::Zero, site: None },
+            Subst { flag: FlagSel::Flip, y: YSel::Honest, site: None },
+            Subst { flag: FlagSel::False, y: YSel::SqrtInv(false), site: None },
+            Subst { flag: FlagSel::True, y: YSel::SqrtZetaInv(false), site: None },
+            Subst { flag: FlagSel::Honest, y: YSel::One, site: None },
+        ];
+        let all_cols = tier.pick(400, 100_000) as u32;
+        for (k, prog) in instances.iter().enumerate() {
+            v.push(Case::Hint { prog: prog.clone(), substs: forge_substs.clone(), forge: Some(Forge { seed: k as u64, max: all_cols }) });
         }
         let src = PtSrc::SmallMul(5);
         for kind in [
@@ -788,11 +873,11 @@ impl Property for C14 {
     fn check(&self, case: &Case, ctx: &mut Ctx) -> Result<(), Failure> {
         let dishonest = |s: &[Subst]| s.iter().any(|x| *x != Subst::honest());
         match case {
-            Case::Hint { prog, substs } => {
+            Case::Hint { prog, substs, forge } => {
                 if dishonest(substs) {
                     ctx.nontrivial();
                 }
-                hint_case(prog, substs, ctx)
+                hint_case(prog, substs, *forge, ctx)
             }
             Case::Coords { kind, via_affine, substs } => {
                 if !matches!(kind, CoordKind::Valid(_)) || dishonest(substs) {
@@ -821,9 +906,12 @@ impl Property for C14 {
             v
         };
         match case {
-            Case::Hint { prog, substs } => {
-                let mut v: Vec<Case> = drop_substs(substs).into_iter().map(|s| Case::Hint { prog: prog.clone(), substs: s }).collect();
-                v.extend(rl::shrink_program(prog).into_iter().map(|p| Case::Hint { prog: p, substs: substs.clone() }));
+            Case::Hint { prog, substs, forge } => {
+                let mut v: Vec<Case> = drop_substs(substs).into_iter().map(|s| Case::Hint { prog: prog.clone(), substs: s, forge: *forge }).collect();
+                v.extend(rl::shrink_program(prog).into_iter().map(|p| Case::Hint { prog: p, substs: substs.clone(), forge: *forge }));
+                if forge.is_some() {
+                    v.push(Case::Hint { prog: prog.clone(), substs: substs.clone(), forge: None });
+                }
                 v
             }
             Case::Coords { kind, via_affine, substs } => drop_substs(substs).into_iter().map(|s| Case::Coords { kind: kind.clone(), via_affine: *via_affine, substs: s }).chain(if substs.is_empty() { vec![] } else { vec![Case::Coords { kind: kind.clone(), via_affine: *via_affine, substs: vec![] }] }).collect(),
